@@ -19,7 +19,8 @@ RULE = (
     'use of the library (single_block parse, abandoned push_back/peek, tokenizer stopped by an error, IterTokenizer); random: Hypothesis text (<= 300 chars) mixing all Unicode '
     'scalar values with that alphabet; embed: generated KeyValues/VMF/BSP-entity/DMX-KV2 style lines holding several '
     'escaped strings between operators, bare words, flags and comments, tokenized with the option set that format\'s '
-    'parser uses. non-trivial = a string contains a character that must be escaped (" \\ CR LF TAB \\v \\b \\f \\a); '
+    'parser uses, optionally with one malformed fragment (nested/unclosed [ ] or ( ) block, stray ] ) / \') earlier on the line whose '
+    'single TokenSyntaxError a report-and-continue reader catches before reading on from the same tokenizer. non-trivial = a string contains a character that must be escaped (" \\ CR LF TAB \\v \\b \\f \\a); '
     'distinct = every enumerated string once / sha1 of the descriptor JSON'
 )
 ASSUMPTIONS = [
@@ -427,6 +428,43 @@ def execute_kv2file(desc, ctx):
 # ------------------------------------------------------------------ (c) embedding
 
 WORD_CHARS = 'abcXYZ019_.$%-'
+# Malformed fragments: each makes the tokenizer raise exactly one TokenSyntaxError and leaves it at a token boundary.
+BAD_KINDS = ['nest', 'nest_paren', 'eol', 'close', 'slash', 'stray']
+ERR = ('<TokenSyntaxError>', '')      # stands for "one syntax error was raised here" in the got / want token lists
+
+
+def bad_fragment(kind: str, word: str, string_bracket: bool) -> str:
+    """The text of a malformed fragment; which ones are errors depends on string_bracket (string_parens is on in all formats)."""
+    if kind == 'nest':          # 'Cannot nest [] / () brackets!' after the block collected `word`
+        return f'[{word}[' if string_bracket else f'({word}('
+    if kind == 'nest_paren':
+        return f'({word}('
+    if kind == 'eol':           # 'Reached end of line without closing "]"' - only with string_bracket
+        return f'[{word}\n' if string_bracket else f'({word}\n('
+    if kind == 'close':         # 'No open [] / () to close'
+        return ']' if string_bracket else ')'
+    if kind == 'slash':         # 'Single slash found' (the character after the slash is consumed)
+        return '/ '
+    return "'"                  # 'Unexpected character'
+
+
+def read_all(tok) -> list:
+    """Report-and-continue reader: every token up to EOF, a TokenSyntaxError is noted as ERR and reading goes on."""
+    from srctools.tokenizer import Token, TokenSyntaxError
+    got: list = []
+    errors = 0
+    while True:
+        try:
+            typ, val = tok()
+        except TokenSyntaxError:
+            got.append(ERR)
+            errors += 1
+            if errors > 8:
+                return got
+            continue
+        if typ is Token.EOF:
+            return got
+        got.append((typ, val))
 
 
 def embed_cases(tier: str):
@@ -445,7 +483,12 @@ def embed_cases(tier: str):
         st.tuples(st.just('comment'), st.text(st.sampled_from(WORD_CHARS + ' "\\/*'), max_size=8)).map(list),
     )
     seps = st.lists(st.sampled_from(['', ' ', '\t', '  ']), min_size=1, max_size=8)
+    # a malformed fragment earlier on the line (one TokenSyntaxError) that a report-and-continue reader steps over:
+    # [kind, collected text, position among the items]
+    bad = st.one_of(st.none(), st.tuples(st.sampled_from(BAD_KINDS), st.text(st.sampled_from(WORD_CHARS + '  '), max_size=8),
+                                         st.integers(0, 12)).map(list))
     return st.fixed_dictionaries({
+        'bad': bad,
         'fmt': st.sampled_from(['kv', 'vmf', 'bsp', 'kv2', 'kvparse']),
         'multiline': st.booleans(),
         'items': st.lists(item, min_size=1, max_size=12),
@@ -482,6 +525,8 @@ def render(items, seps, multiline, string_bracket):
         sep = seps[i % len(seps)]
         if i and (kind == 'b' or prev_kind == 'b') and sep == '':
             sep = ' '   # a bare word swallows any adjacent non-terminator, keep it apart
+        if i and (kind == 'bad' or prev_kind == 'bad'):
+            sep = ' '   # the malformed fragment stands on its own
         if i and sep == '' and kind == 'nl' and val.startswith('\n') and items[i - 1][0] == 'nl' and items[i - 1][1].endswith('\r'):
             sep = ' '   # a bare CR directly followed by LF would be ONE line break (CR-LF), keep them two
         if i:
@@ -508,6 +553,9 @@ def render(items, seps, multiline, string_bracket):
         elif kind == 'comment':
             parts.append('//' + val + '\n')
             want.append((Token.NEWLINE, '\n'))
+        elif kind == 'bad':
+            parts.append(bad_fragment(val[0], val[1], string_bracket))
+            want.append(ERR)
         else:
             parts.append(val)
             want.append(({'{': Token.BRACE_OPEN, '}': Token.BRACE_CLOSE, ',': Token.COMMA, '=': Token.EQUALS,
@@ -530,6 +578,15 @@ def execute_embed(desc, ctx):
     if string_bracket:
         # '[' / ']' are not tokens of their own in these formats; keep them as flags only.
         items = [it for it in items if not (it[0] == 'op' and it[1] in '[]')]
+    bad = desc.get('bad')
+    if bad:
+        # history on the judged tokenizer itself: an earlier block of the line is malformed, the reader catches the one
+        # TokenSyntaxError and keeps reading - the strings after it must still come back exactly
+        ctx.label('resume_after_syntax_error', 'bad:' + bad[0])
+        if bad[0] in ('nest', 'nest_paren', 'eol') and bad[1]:
+            ctx.label('resume_after_error_in_block_with_text')
+        at = bad[2] % (len(items) + 1)
+        items = items[:at] + [['bad', [bad[0], bad[1]]]] + items[at:]
     head, tail = FRAMES[fmt]
     items = head + items + tail
     quoted = [v for k, v in items if k in ('q', 'crq')]
@@ -565,7 +622,7 @@ def execute_embed(desc, ctx):
         # so line-break tokens are not compared in lines that use bare CR endings.
         want = [t for t in want if t[0] is not Token.NEWLINE]
     for how, data in deliveries:
-        got = list(Tokenizer(data, **opts))
+        got = read_all(Tokenizer(data, **opts))
         if bare_cr:
             got = [t for t in got if t[0] is not Token.NEWLINE]
         if got != want:
@@ -621,7 +678,8 @@ SUBCHECKS = [
     Sub('embed', execute_embed, strategy=embed_cases, quick=8000, thorough=200000, quick_shards=16,
         floor=1000, must_hit=('fmt:kv', 'fmt:vmf', 'fmt:bsp', 'fmt:kv2', 'fmt:kvparse', 'multiline', 'singleline',
                               'value_has_quote', 'value_trailing_backslash', 'value_has_linebreak', 'key_has_linebreak',
-                              'delivery:empty_chunk_at_every_cut',
+                              'delivery:empty_chunk_at_every_cut', 'resume_after_syntax_error',
+                              'resume_after_error_in_block_with_text',
                   'pre:none', 'pre:single_block', 'pre:pushback_abandoned', 'pre:peek_abandoned', 'pre:stopped_mid_string',
                   'pre:itertokenizer_abandoned', 'pre:parse_error')),
 ]
